@@ -717,7 +717,7 @@ Proof.
   apply (exec_all_start ss init_st s); [eapply classify_top_ok; exact H1|reflexivity|exact H2].
 Qed.
 
-(* ---------- detached cables appear only through .blackbox ---------- *)
+(* ---------- no handler detaches a cable that still holds pins ---------- *)
 Definition Oinv (ms : list model) : Prop := forall m, In m ms -> m_orphans m = [].
 
 Lemma oinv_upd_model cur f ms :
@@ -835,12 +835,9 @@ Proof.
   unfold ensure_port. destruct (find_port _ _); [assumption|apply oinv_add_port; assumption].
 Qed.
 
-Definition is_blackbox_stmt (x : stmt) : bool := match x with SBlackbox => true | _ => false end.
-
-Lemma exec_oinv s x s' :
-  is_blackbox_stmt x = false -> Oinv (st_models s) -> exec s x = Ok s' -> Oinv (st_models s').
+Lemma exec_oinv s x s' : Oinv (st_models s) -> exec s x = Ok s' -> Oinv (st_models s').
 Proof.
-  intros Hx HO H. destruct x; cbn [exec] in H; try discriminate.
+  intros HO H. destruct x; cbn [exec] in H; try discriminate.
   - inversion H; subst. exact HO.
   - destruct (b_top (s_nl s)); inversion H; subst s'; cbn [st_models s_nl b_models];
       (apply oinv_upd_model; [apply oinv_ensure; exact HO|auto]).
@@ -878,17 +875,16 @@ Proof.
     destruct (pni b) as [[bn bi]|]; [|discriminate]. cbn [bind] in H.
     apply bind_ok in H as [ms [H1 H2]]. inversion H2; subst s'. rewrite st_models_set_ms.
     eapply oinv_upd_model_res; [exact HO|exact H1|intros; eapply do_conn_orph; eauto].
+  - inversion H; subst s'. cbn [st_models s_nl b_models set_models]. apply oinv_upd_model; auto.
   - destruct (m_lib (cur_model s)); inversion H; subst s'. cbn [st_models s_nl b_models set_nl].
     apply oinv_upd_model; auto.
 Qed.
 
-Lemma exec_all_oinv l s s' :
-  forallb (fun x => negb (is_blackbox_stmt x)) l = true -> Oinv (st_models s) -> exec_all s l = Ok s' -> Oinv (st_models s').
+Lemma exec_all_oinv l s s' : Oinv (st_models s) -> exec_all s l = Ok s' -> Oinv (st_models s').
 Proof.
-  revert s. induction l as [|x l IH]; intros s Hl HO H; cbn in H.
+  revert s. induction l as [|x l IH]; intros s HO H; cbn in H.
   - inversion H; subst; assumption.
-  - cbn in Hl. apply andb_true_iff in Hl as [Hx Hl]. apply negb_true_iff in Hx.
-    apply bind_ok in H as [s1 [H1 H2]]. eapply IH; [exact Hl| |exact H2]. eapply exec_oinv; eauto.
+  - apply bind_ok in H as [s1 [H1 H2]]. eapply IH; [|exact H2]. eapply exec_oinv; eauto.
 Qed.
 
 Lemma finish_oinv s n : Oinv (st_models s) -> finish s = Ok n -> Oinv (b_models n).
